@@ -149,10 +149,10 @@ def run(ctx):
     cli_n = 0
     err_inputs = [t for (k, t), a in zip(ins, res) if classify(a) == 'diagnostic'][:: max(1, len(ins) // (12 if ctx.quick else 60))][:12 if ctx.quick else 60]
     for t in err_inputs:
-        rc, so, se = cli(['--imax=2', '0'], t)
+        rc, so, se = cli(['--imax=3', '--istop=unknown', '0'], t)
         cli_n += 1
         if rc is None or rc == 0 or ('*** ERROR' not in se and 'error' not in se.lower()):
-            uniq.append({'key': 'c15:cli-exit', 'what': 'command line: exit status %s without error message for an input that telingo rejects: %s' % (rc, json.dumps(t)), 'input': {'cli_text': t, 'args': ['--imax=2', '0']}})
+            uniq.append({'key': 'c15:cli-exit', 'what': 'command line: exit status %s without error message for an input that telingo rejects: %s' % (rc, json.dumps(t)), 'input': {'cli_text': t, 'args': ['--imax=3', '--istop=unknown', '0']}})
             break
     for args, exp in OPTION_CASES:
         rc, so, se = cli(args + (['--imax=2'] if exp == 'accept-bounded' and False else []), 'a.\n:- a.\n' if exp == 'accept-bounded' else 'a.\n', timeout=8 if exp == 'accept-bounded' else 30)
